@@ -385,7 +385,12 @@ impl Display for SequencedSegment {
 
 impl StreamSocket {
     fn new(capacity: usize) -> (Self, mpsc::Receiver<SequencedSegment>, BidiFlowControl) {
-        let (tx, rx) = mpsc::channel(capacity);
+        // Data segments are bounded by the `capacity` flow-control credits; the
+        // FIN is sequenced but not flow-controlled, so it needs a slot of its
+        // own. Without it a FIN that becomes deliverable while `capacity`
+        // unread data segments are queued would stay in the reorder buffer
+        // forever and the reader would never observe EOF.
+        let (tx, rx) = mpsc::channel(capacity + 1);
         let flow_control = BidiFlowControl::new(capacity);
         let sock = Self {
             buf: IndexMap::new(),
